@@ -1325,6 +1325,31 @@ func (env *SpecEnv) evalCall(x *ast.CallExpr) Val {
 			return boolVal(Term{fmt.Sprintf("(forall ((%s Int)) %s)", bv.S, Implies(rng, body).S), SBool})
 		}
 		return boolVal(Term{fmt.Sprintf("(exists ((%s Int)) %s)", bv.S, And(rng, body).S), SBool})
+	case "all", "some":
+		// all(x, P): P for every integer x (unbounded quantifier; x also stands for references and string ids)
+		if len(x.Args) != 2 {
+			specFail("%s(x, P) expected", fname)
+		}
+		id, ok := x.Args[0].(*ast.Ident)
+		if !ok {
+			specFail("%s: first argument must be an identifier", fname)
+		}
+		bv := Term{sym(env.st.ctx.freshName("q!" + id.Name)), SInt}
+		saved, had := env.vars[id.Name]
+		env.vars[id.Name] = intVal(bv)
+		savedFacts := env.facts
+		body := env.evalGo(x.Args[1]).term()
+		env.facts = savedFacts
+		if had {
+			env.vars[id.Name] = saved
+		} else {
+			delete(env.vars, id.Name)
+		}
+		q := "forall"
+		if fname == "some" {
+			q = "exists"
+		}
+		return boolVal(Term{fmt.Sprintf("(%s ((%s Int)) %s)", q, bv.S, body.S), SBool})
 	case "held":
 		v := env.addrOrVal(x.Args[0])
 		if len(v.L) < 1 || v.L[0].Sort != SBool {
@@ -1428,6 +1453,30 @@ func (env *SpecEnv) evalCall(x *ast.CallExpr) Val {
 		}
 		name, _ := strconv.Unquote(lit.Value)
 		return intVal(env.cur().countEvents(name))
+	case "evarg":
+		// evarg("event", k): k-th recorded argument of the first occurrence of the event on this path
+		lit, ok := x.Args[0].(*ast.BasicLit)
+		if !ok {
+			specFail("evarg needs a string literal event name")
+		}
+		name, _ := strconv.Unquote(lit.Value)
+		kv, ok := arg(1).term().IntLit()
+		if !ok {
+			specFail("evarg needs a literal index")
+		}
+		for _, ev := range env.cur().trace {
+			if ev.Name == name {
+				if int(kv.Int64()) >= len(ev.Args) {
+					specFail("event %s has %d arguments", name, len(ev.Args))
+				}
+				a := ev.Args[kv.Int64()]
+				if a.Sort == SBool {
+					return boolVal(a)
+				}
+				return intVal(a)
+			}
+		}
+		specFail("unknown identifier: no event %q on this path", name)
 	case "before":
 		a, _ := strconv.Unquote(x.Args[0].(*ast.BasicLit).Value)
 		b, _ := strconv.Unquote(x.Args[1].(*ast.BasicLit).Value)
